@@ -256,5 +256,42 @@ def run_item(item):
                                     ok = False
                         if ok:
                             res["outcomes"].append(cfg)
+        # ONE FNO instance used on several grids one after the other (all ordered pairs of grids): the output lives on
+        # the grid of the CURRENT input and equals what an unused copy of the network gives there (nothing about an
+        # earlier resolution may be remembered)
+        import copy as _copy
+        grids = {1: [(4,), (8,), (6,), (16,)], 2: [(4, 6), (6, 4), (8, 6), (4, 4)]}
+        for dim in (1, 2):
+            for layers in (1, 2):
+                torch.manual_seed(11 + dim + layers)
+                fm = 2 if dim == 1 else [[2, 2]] * layers
+                net0 = tp.models.FNO(Space({"f": 2}), Space({"u": 1}), fourier_layers=layers, hidden_channels=3, fourier_modes=fm)
+                for g1 in grids[dim]:
+                    for g2 in grids[dim]:
+                        if g1 == g2:
+                            continue
+                        cfg = "fno dim=%d layers=%d grid %s then %s" % (dim, layers, g1, g2)
+                        res["states"].append(cfg)
+                        used, fresh = _copy.deepcopy(net0), _copy.deepcopy(net0)
+                        gen = torch.Generator().manual_seed(5)
+                        x1 = torch.rand((2,) + g1 + (2,), generator=gen)
+                        x2 = torch.rand((2,) + g2 + (2,), generator=gen)
+                        try:
+                            with torch.no_grad():
+                                used(Points(x1, Space({"f": 2})))
+                                y_used = used(Points(x2, Space({"f": 2}))).as_tensor
+                                y_fresh = fresh(Points(x2, Space({"f": 2}))).as_tensor
+                        except Exception as e:
+                            viol("C20|error|%s|fno-two-grids" % type(e).__name__, "%s raised %s: %s" % (cfg, type(e).__name__, str(e)[:120]))
+                            continue
+                        res["evals"] += 3
+                        res["transitions"] += 1
+                        if tuple(y_used.shape) != (2,) + g2 + (1,):
+                            viol("C20|fno-remembers-grid|shape", "%s: output shape %s for an input on grid %s" % (cfg, tuple(y_used.shape), g2))
+                        elif not torch.allclose(y_used, y_fresh, rtol=1e-5, atol=1e-6):
+                            viol("C20|fno-remembers-grid|values", "%s: the output differs from that of an unused copy of the network by %.3g" % (
+                                cfg, float((y_used - y_fresh).abs().max())))
+                        else:
+                            res["outcomes"].append(cfg)
     res["samples"] = [{"case": item["name"], "configurations": len(res["states"])}]
     return res
